@@ -101,6 +101,9 @@ template<class T> void walk_events(Walk const& w) {
         Ev e("points"); e.str("t", TI<T>::code()); put_walk(e, w, j);
         for (; j <= 3 * m + 5; ++j) e.arg(pl.pt<T>(j));
         e.emit();
+        if (w.v[9] > 0 && w.v[9] < (1 << 20) && 4 * m * m * w.v[9] <= 3 * w.v[10]) {     // the control points of squad
+            for (int jj : { m * m, m * m + m }) { j = jj; Ev e2("points"); e2.str("t", TI<T>::code()); put_walk(e2, w, j); e2.arg(pl.pt<T>(j)); e2.emit(); }
+        }
     }
     for (int j = -2 * m; j <= 3 * m; ++j) {
         T t = T(j) / T(m);
@@ -138,8 +141,11 @@ template<class T> void walk_events(Walk const& w) {
             qm_.push_back(Qt::wxyz(sm.w, sm.x, sm.y, sm.z)); qm_.push_back(Qt::wxyz(mm.w, mm.x, mm.y, mm.z));
             ql_.push_back(Qt::wxyz(sl.w, sl.x, sl.y, sl.z)); ql_.push_back(Qt::wxyz(ml.w, ml.x, ml.y, ml.z));
         }
-        // squad along the walk: q1 = cur_0, q2 = cur_m, s1 = cur_2, s2 = cur_(m+2), h = j/m in [0,1]
-        if (j >= 0 && j <= m) squad_.push_back(glm::squad(x, y, pl.pt<T>(2), pl.pt<T>(m + 2), t));
+        // squad along the walk: q1 = cur_0, q2 = cur_m, s1 = cur_sa, s2 = cur_(sa+m) with sa = m^2, h = j/m in [0,1]; then
+        // squad = mix(cur_j, cur_(j+sa), 2h(1-h)) = cur_(j + 2j(m-j)).  Only for walks whose angles all stay acute (m^2 psi < pi/2).
+        int sa = m * m;
+        bool squad_dom = w.v[9] > 0 && w.v[9] < (1 << 20) && 4 * sa * w.v[9] <= 3 * w.v[10];
+        if (inside && squad_dom) squad_.push_back(glm::squad(x, y, pl.pt<T>(sa), pl.pt<T>(sa + m), t));
         // intermediate(prev, curr, next) with prev = cur_(j-pa), next = cur_(j+pb), (pa, pb) = (1,1) (1,5) (5,1) (2,2)
         if (j == 0 || j == m || j == -2 * m || (g_thorough && j % 2 == 0)) {
             static const int pab[4][2] = { {1, 1}, {1, 5}, {5, 1}, {2, 2} };
